@@ -36,6 +36,11 @@ def classify(st: dict[str, Any]) -> str:
     return "warm-differs:missing=" + ",".join(_codes(miss)) + ":extra=" + ",".join(_codes(extra))
 
 
+# exploration slice: everything except module deletion (stale import-not-found after a deletion is a listed defect class of
+# the unchanged tree; the core histories cover it per history+step)
+EXPLORE_OPS = histgen.CONTENT_OPS + ["add_module", "stub_toggle", "to_package", "syntax_error"]
+
+
 def gen(ctx: common.Ctx, n_hist: int, steps: tuple[int, int], all_configs: bool, explore: bool = False) -> Iterator[dict[str, Any]]:
     """core (explore=False): seed-independent histories over all edit operators; exploration: VERIF_SEED-dependent histories."""
     cfgs = list(CONFIGS)
@@ -45,7 +50,8 @@ def gen(ctx: common.Ctx, n_hist: int, steps: tuple[int, int], all_configs: bool,
         n = r.randint(*steps)
         # exploration avoids packages: deleting a submodule that its own package imports is a listed defect class of the
         # unchanged tree (core histories cover it, per history+step)
-        h = histgen.history((*tag, k), n_steps=n, n_modules=r.randint(3, 8), packages=not explore)
+        h = histgen.history((*tag, k), n_steps=n, n_modules=r.randint(3, 8), packages=not explore,
+                            ops=EXPLORE_OPS if explore else None)
         flags: list[str] = []
         if r.random() < 0.3:
             flags = r.choice([["--strict"], ["--warn-unreachable"], ["--disallow-any-generics"], ["--no-implicit-reexport"],
